@@ -83,7 +83,7 @@ func (c *Ctx) deployShape(rule string) *deployShape {
 }
 
 func checkC01(c *Ctx) {
-	r011(c)
+	r011(c, "R01.1 health-gate-dominates-publication")
 	r012(c)
 	r013(c)
 	r014(c)
@@ -94,8 +94,7 @@ func checkC01(c *Ctx) {
 }
 
 // R01.1 health gate dominates publication.
-func r011(c *Ctx) {
-	const rule = "R01.1 health-gate-dominates-publication"
+func r011(c *Ctx, rule string) {
 	c.floor(rule, 5)
 	d := c.deployShape(rule)
 	if d == nil {
